@@ -5,7 +5,7 @@ PID = "C08"
 MODULES = ["BeffVerif.Props.C08", "BeffVerif.Props.C08Decls"]
 AUDIT = "BeffVerif/Audit/C08.lean"
 TAGS = ("c08.",)
-HYP = {"NoNamingNearUnion": "D11", "NoNamedIntersectionMember": "D39", "NoNamingWithRecursion": "D41"}
+HYP = {"NoNamingNearUnion": "D11", "NoNamedIntersectionMember": "D39", "NoNamedSharedKeyInIntersection": "D39b", "NoNamingWithRecursion": "D41"}
 
 def known(chk):
     base = vcheck.known_by_hyp(chk, HYP)
